@@ -14,6 +14,7 @@ Reading guide (ghost fields of `St`): `accepted` = tasks whose `dispatch`/`dispa
 import Compio.Lemmas.Dispatcher
 import Compio.Lemmas.DispatcherProgress
 import Compio.Lemmas.DispatcherTrace
+import Compio.Lemmas.DispatcherGen
 
 namespace Compio.Dispatcher
 
@@ -557,5 +558,143 @@ example : accepts 2 true [.intent 1 ⟨1, .ok 7⟩ false, .acc 1, .start 0 1, .f
 example : accepts 2 true [.intent 1 ⟨1, .ok 7⟩ false, .acc 1, .start 0 1, .start 1 1] = false := by decide
 example : accepts 2 false [.intent 1 ⟨0, .ok 7⟩ false, .intent 2 ⟨0, .ok 8⟩ false, .acc 1, .acc 2, .start 0 1,
     .start 0 2] = false := by decide
+
+/-! ### session 3: the control structure regenerated from the Rust source (`Gen/DispatcherLoop.lean`)
+
+The extractor target `DispatcherLoop` re-reads `Dispatcher::new_impl` (worker loop), `dispatch`, `join`,
+`Concrete::spawn` / `run`, `Runtime::block_on_at` (exit and unwind paths) and `Runtime::drop` on every check; the
+theorems below say that the step functions of the hand model -- the ones all theorems above are about and the
+driver executes -- do exactly what the generated tables say, for every state.  A source change that alters one of
+the constructs changes the generated literal and breaks the corresponding obligation here (or is not recognised
+by the extractor, which fails closed). -/
+
+open Compio.Gen.DispatcherLoop in
+/-- Worker loop: after `recv_async()` has yielded task `t`, the task object is in w's executor and the loop future
+does what the source's `if concurrent { .. } else { .. }` says -- `task.detach()`: stays in `recv_async()`;
+`task.await.ok()`: suspended on exactly this task. -/
+theorem gen_worker_loop_after_spawn {s s' : St} {w t : Nat} (h : step? s (.recv w t) = some s') :
+    s'.main = loopAfter s.main w t (afterSpawn s.conc) ∧ s'.stat t = .spawned w := by
+  obtain ⟨_, _, _, rfl⟩ := recv?_some h
+  cases hc : s.conc <;> simp [afterSpawn, loopAfter, upd]
+
+open Compio.Gen.DispatcherLoop in
+/-- sequential mode really is the `await` arm, concurrent mode really is the `detach` arm (non-vacuity of the tie:
+the two modes of the model are the two arms of the source) -/
+theorem gen_modes_are_the_two_arms : afterSpawn false = .awaitTask ∧ afterSpawn true = .detach ∧
+    defaultConcurrent = true := by decide
+
+open Compio.Gen.DispatcherLoop in
+/-- `dispatch`: the two arms of `match self.sender.send(..)` -- `Ok(rx)`: accepted, receiver pending, nothing
+handed back; `Err(DispatchError(func))`: closure handed back, nothing accepted, no task object exists.  flume's
+`send` succeeds iff a `Receiver` clone is alive. -/
+theorem gen_dispatch_arms {s s' : St} {d t : Nat} {b : Body} (h : step? s (.dispatch d t b) = some s') :
+    match dispatchArm (anyRx s) with
+    | .okReceiver => s'.accepted = s.accepted ++ [t] ∧ s'.rejected = s.rejected ∧ s'.chan t = .pending ∧
+        s'.stat t = .queued
+    | .errClosureBack => s'.rejected = s.rejected ++ [t] ∧ s'.accepted = s.accepted ∧ s'.stat t = s.stat t ∧
+        s'.chan t = s.chan t := by
+  obtain ⟨_, _, _, hc | hc⟩ := dispatch?_some h
+  · obtain ⟨hr, rfl⟩ := hc; simp [dispatchArm, hr, upd]
+  · obtain ⟨hr, rfl⟩ := hc; simp [dispatchArm, hr]
+
+open Compio.Gen.DispatcherLoop in
+/-- The last poll of a dispatched task does to its receiver what the statements of the spawned future say:
+`let res = func().await; callback.send(res).ok();` -- value sent once when the body returns, `callback` dropped
+(cancellation) when it panics. -/
+theorem gen_task_body_effect {s s' : St} {w t : Nat} (hst : s.stat t = .running w 0)
+    (h : step? s (.poll w t) = some s') :
+    bodyEffect taskBody (s.body t).out none (s.chan t) (s.sent t) = some (s'.chan t, s'.sent t) := by
+  obtain ⟨_, _, hc | hc | hc | hc⟩ := poll?_some h
+  · obtain ⟨h1, _⟩ := hc; rw [hst] at h1; cases h1
+  · obtain ⟨k, h1, _⟩ := hc; rw [hst] at h1; cases h1
+  · obtain ⟨v, _, ho, rfl⟩ := hc
+    simp [taskBody, bodyEffect, ho, upd, Chan.cancel_send]
+  · obtain ⟨_, ho, rfl⟩ := hc
+    simp [taskBody, bodyEffect, ho, upd]
+
+open Compio.Gen.DispatcherLoop in
+/-- the same for `dispatch_blocking` closures (`Concrete::run` on a pool thread) -/
+theorem gen_blocking_body_effect {s s' : St} {t : Nat} (h : step? s (.runBlocking t) = some s') :
+    bodyEffect blockingBody (s.body t).out none (s.chan t) (s.sent t) = some (s'.chan t, s'.sent t) := by
+  obtain ⟨_, hc | hc⟩ := runBlocking?_some h
+  · obtain ⟨v, ho, rfl⟩ := hc
+    simp [blockingBody, bodyEffect, ho, upd, Chan.cancel_send]
+  · obtain ⟨ho, rfl⟩ := hc
+    simp [blockingBody, bodyEffect, ho, upd]
+
+open Compio.Gen.DispatcherLoop in
+/-- The statements of `Dispatcher::join`, read as model events in source order, are `joinStart`, the hand-over of
+the joiner (pool, or -- refused -- the fallback thread: never an early return), `joinReturn`. -/
+theorem gen_join_program : joinProgram false = some [.joinStart, .joinPool, .joinReturn] ∧
+    joinProgram true = some [.joinStart, .joinFallbackThread, .joinReturn] := by decide
+
+/-- **All histories**: in every schedule the model accepts, from a fresh dispatcher, the join events occur in the
+order of the statements of the source's `join` -- `drop(self.sender)` first, then the hand-over of the joiner
+closure, `joinReturn` last, each at most once: the join events of the schedule are a prefix of the generated
+program (for the pool's answer that schedule saw). -/
+theorem join_events_follow_source_order {nw : Nat} {conc : Bool} {evs : List Event} {s : St}
+    (h : run? (init nw conc) evs = some s) :
+    ∃ refused prog, joinProgram refused = some prog ∧ evs.filter Event.isJoin <+: prog := by
+  obtain ⟨_, hp⟩ := joinPhase_run (JGood.init nw conc) h
+  have h0 : joinPhase (init nw conc) = [] := by simp [joinPhase, Compio.Dispatcher.init]
+  rw [h0, List.nil_append] at hp
+  rw [← hp]
+  unfold joinPhase
+  split
+  · exact ⟨false, _, gen_join_program.1, List.nil_prefix⟩
+  · split
+    · exact ⟨false, _, gen_join_program.1, by simp [List.prefix_iff_eq_append]⟩
+    · rename_i b _
+      cases b
+      · refine ⟨true, _, gen_join_program.2, ?_⟩
+        cases s.joined.isSome <;> simp [handEvent, List.prefix_iff_eq_append]
+      · refine ⟨false, _, gen_join_program.1, ?_⟩
+        cases s.joined.isSome <;> simp [handEvent, List.prefix_iff_eq_append]
+
+open Compio.Gen.DispatcherLoop in
+/-- A pool that refuses the joiner closure cannot stop `join`: whatever the pool answers, the event the source
+prescribes for that answer is enabled once the sender is dropped. -/
+theorem gen_join_refused_never_blocks (s : St) (hsend : s.sender = false) (hn : s.joiner = none) (refused : Bool) :
+    ∃ evs : List Event, joinStmtEvents refused .handJoiner = some evs ∧ evs.length = 1 ∧
+      ∀ e ∈ evs, (step? s e).isSome = true := by
+  cases refused
+  · exact ⟨[.joinPool], by decide, rfl, by simp [step?, joinHand?, hsend, hn]⟩
+  · exact ⟨[.joinFallbackThread], by decide, rfl, by simp [step?, joinHand?, hsend, hn]⟩
+
+open Compio.Gen.DispatcherLoop in
+/-- `join`'s result is what the source's `for res in results { res.unwrap_or_else(|e| resume_unwind(e)) } Ok(())`
+gives for the results the joiner collected (`thread.join()` of every worker, in thread order), and the joiner
+sends them only after it has joined every thread. -/
+theorem gen_join_result {s s' : St} (h : step? s .joinReturn = some s') :
+    s'.joined = joinResult joinBody (firstDead s) ∧ joinerWaits joinerBody = true ∧ allGone s = true := by
+  obtain ⟨_, _, hg, rfl⟩ := joinReturn?_some h
+  refine ⟨?_, by decide, hg⟩
+  cases firstDead s <;> simp [joinBody, joinResult]
+
+open Compio.Gen.DispatcherLoop in
+/-- `block_on_at` leaves after one tick once the worker loop has ended (no draining loop): a worker in `draining`
+can always drop its runtime, whatever is still runnable in its executor; and both ways out of `block_on_at`
+(return + `Runtime::drop`, unwinding) clear the executor, which is what `teardown` / `reap` do. -/
+theorem gen_block_on_exit_bounded_and_clears :
+    exitBounded blockOnReady = true ∧ blockOnUnwind.contains .clearExecutor = true ∧
+    runtimeDrop.contains .clearExecutor = true ∧
+    (∀ (s : St) (w : Nat), w < s.nw → s.main w = .draining →
+      step? s (.teardown w) = some (clearExec { s with main := upd s.main w .exited } w)) ∧
+    (∀ (s : St) (w p : Nat), w < s.nw → s.main w = .dying p →
+      step? s (.reap w) = some (gc (clearExec { s with main := upd s.main w (.dead p) } w))) := by
+  refine ⟨by decide, by decide, by decide, ?_, ?_⟩
+  · intro s w hw hd; simp [step?, teardown?, hw, hd]
+  · intro s w p hw hd; simp [step?, reap?, hw, hd]
+
+/-- non-vacuity: a schedule with all four join events (fallback path) and its filtered join events -/
+example : (run? (init 1 true) [.joinStart, .exitLoop 0, .joinFallbackThread, .teardown 0, .joinReturn]).isSome = true ∧
+    [Event.joinStart, .exitLoop 0, .joinFallbackThread, .teardown 0, .joinReturn].filter Event.isJoin =
+      [.joinStart, .joinFallbackThread, .joinReturn] := by decide
+/-- the order is enforced: handing the joiner over before `drop(self.sender)` is not a schedule -/
+example : run? (init 1 true) [.joinPool] = none := by decide
+example : bodyEffect Compio.Gen.DispatcherLoop.taskBody (.ok 7) none .pending 0 = some (.value 7, 1) := by decide
+example : bodyEffect Compio.Gen.DispatcherLoop.taskBody .panic none .pending 0 = some (.cancelled, 0) := by decide
+example : joinResult Compio.Gen.DispatcherLoop.joinBody (some 3) = some (some 3) ∧
+    joinResult Compio.Gen.DispatcherLoop.joinBody none = some none := by decide
 
 end Compio.Dispatcher
